@@ -9,7 +9,7 @@ use proptest::strategy::BoxedStrategy;
 use serde_json::Value;
 
 fn oracles() -> Oracles {
-    Oracles { dump_every: 3, final_reopen: true, measure_shapes: true, checker_every: 4, ..Oracles::default() }
+    Oracles { dump_every: 3, final_reopen: true, measure_shapes: true, checker_every: 4, stale_handles: true, ..Oracles::default() }
 }
 
 fn profile(tier: Tier) -> Profile {
@@ -60,9 +60,10 @@ fn focus_case(tier: Tier) -> BoxedStrategy<Case> {
         2 => slot.clone().prop_map(|slot| Op::HFlush { slot }),
         1 => slot.clone().prop_map(|slot| Op::HReadToEnd { slot }),
         3 => (new_path(0), data_strategy(5000)).prop_map(|(p, data)| Op::CreateStream { p, data }),
-        1 => new_path(0).prop_map(|p| Op::CreateStorage { p }),
+        2 => new_path(0).prop_map(|p| Op::CreateStorage { p }),
         1 => (pick_path(PickKind::Stream, 0), len_spec(5000)).prop_map(|(p, len)| Op::SetLen { p, len }),
         1 => Just(Op::Walk),
+        3 => (any::<u8>(), any::<u8>(), data_strategy(5000)).prop_map(|(k, how, data)| Op::HStaleUse { k, how, data }),
     ];
     let n_steps = if tier == Tier::Thorough { 50 } else { 25 };
     (proptest::sample::select(vec![3u8, 4]), proptest::sample::select(vec![None, Some(1024u32)]), 4usize..=names.len(), vec(any::<u16>(), names.len()), vec(any::<u16>(), 3), vec(step, 5..=n_steps))
@@ -104,7 +105,7 @@ pub fn def() -> PropDef {
     PropDef {
         id: "C07",
         level: "exploration",
-        rule: "histories with up to 3 handles open on different streams interleaved with creations, removals (stream, storage, recursive), resizes and overwrites of other entries; the generator never removes/overwrites a stream that has an open handle and never opens two handles on one stream (such draws are skipped and counted in 'excluded'); after every step results are compared with the model, every 3 ops the full dump of all entries, every 4 ops the independent checker on the raw image (damage to slots the API can no longer reach), at the end dump + reopen in both modes. Non-trivial = a handle was used (read/write/set_len) after the removal of a sibling with two children whose in-order predecessor had an open handle (measured on the byte image by the independent parser), or after a creation that followed a removal (freed slot reuse); distinct = distinct case JSON.",
+        rule: "histories with up to 3 handles open on different streams interleaved with creations, removals (stream, storage, recursive), resizes and overwrites of other entries; the generator never overwrites a stream that has an open handle and never opens two handles on one stream (such draws are skipped and counted in 'excluded'); when a stream with an open handle is removed, the handle is kept and later used (read, write_all+flush, set_len, seek, write, drop) with any outcome accepted - it must change nothing that exists (no stream is created while such a handle is alive: what it refers to once its slot holds a stream again is unspecified); after every step results are compared with the model, every 3 ops the full dump of all entries, every 4 ops the independent checker on the raw image (damage to slots the API can no longer reach), at the end dump + reopen in both modes. Non-trivial = a handle was used (read/write/set_len) after the removal of a sibling with two children whose in-order predecessor had an open handle (measured on the byte image by the independent parser), or after a creation that followed a removal (freed slot reuse); distinct = distinct case JSON.",
         assumptions: &["abstract model as in C01"],
         quick_cases: 2500,
         thorough_cases: 30000,
